@@ -777,7 +777,22 @@ func (o *HObs) fingerprint(h *HWorld) string {
 		r := co.Obs
 		s := "held"
 		if !co.Held && r != nil {
-			s = fmt.Sprintf("%d@%s loc=%s", r.Status, r.ServedBy(), r.Header.Get("Location"))
+			// targets are named by the slot they fill (rotation picks different members)
+			slot := r.ServedBy()
+			for _, n := range sortedKeys(h.M.Services) {
+				ms := h.M.Services[n]
+				for _, t := range ms.Active {
+					if t == slot {
+						slot = n + "/active"
+					}
+				}
+				for _, t := range ms.Rollout {
+					if t == slot {
+						slot = n + "/rollout"
+					}
+				}
+			}
+			s = fmt.Sprintf("%d@%s loc=%s", r.Status, slot, r.Header.Get("Location"))
 			if r.Status == 503 {
 				s += " body=" + fmt.Sprint(fnv32a(string(r.Body)))
 			}
@@ -815,7 +830,9 @@ type HSpec struct {
 	Extra func(h *HWorld, op HOp, o *HObs) []Violation
 	// PreLast, if set, runs right before the last op (C06 takes its "before" fingerprint here)
 	PreLast func(h *HWorld, op HOp)
-	Log     bool
+	// EvalOnly, if set, selects the transitions on which the implementation is run
+	EvalOnly func(hist []string, failed bool) bool
+	Log      bool
 }
 
 type hNode struct {
@@ -915,7 +932,7 @@ func exploreH(t *testing.T, job *Job, res *Result, spec *HSpec) {
 			nh := append(append([]string(nil), hist...), opS)
 			nm := &HWorld{World: &World{}, M: mh.M.clone(), allNames: map[string]bool{}, opNo: mh.opNo}
 			failed := len(nm.applyModel(parseOp(opS))) > 0
-			if int(fnv32a(strings.Join(nh, ";"))%uint32(nsh)) == job.Shard {
+			if (spec.EvalOnly == nil || spec.EvalOnly(nh, failed)) && int(fnv32a(strings.Join(nh, ";"))%uint32(nsh)) == job.Shard {
 				if time.Now().After(deadline) {
 					g.Capped = true
 					g.CapNote = "wall-clock budget reached at history " + strings.Join(nh, " ; ")
